@@ -78,7 +78,7 @@ pub fn run(ctx: &Ctx, rep: &mut Report) {
     spy::set_wipe_always(true);
     let profile = ctx.opt("profile").unwrap_or_else(|| "release".into());
     selftest(ctx, rep, &profile);
-    let n_cases = if ctx.thorough() { 600 } else { 64 };
+    let n_cases = if ctx.thorough() { 8000 } else { 64 };
     for c in 0..n_cases {
         let id = c + 1;
         if !ctx.mine(id) {
